@@ -210,6 +210,9 @@ func zzvC02Count(res *vrep.Result, base string, cs zzvC02Case, mode string, begi
 	// A second file of the same week that began two days later: "all of it collected
 	// strictly after the opt-in date" is decided by the earliest begin.
 	u.writeCount(ref.Build{"example.com/p1", "v1.0.0", "go1.21.0", "linux", "arm64"}, begin.Add(2*zzvDay), end, map[string]uint64{"c": 5})
+	// ... and one whose name sorts in front of the first file's, so that the earliest begin is neither the
+	// first nor the last one the uploader comes across.
+	u.writeCount(ref.Build{"example.com/p1", "v1.0.0", "go1.21.0", "linux", "386"}, begin.Add(1*zzvDay), end, map[string]uint64{"c": 7})
 	week := end.Format("2006-01-02")
 	// Reports of other weeks and of this week that exist already (mode off must leave all of it alone).
 	if strings.HasPrefix(mode, "off") {
